@@ -175,10 +175,15 @@ impl<'a> Ctx<'a> {
             Ok(())
         }
     }
+    /// Is the oracle / observation of `prop` active?  While C20 is being decided *every*
+    /// observation is active: C20 is about the programs the explorers generate, and the
+    /// queries, views and exports that the oracles of the other properties make are part of
+    /// those programs.  Their verdicts are not C20's business and are dropped by the harness
+    /// (`run_trace`); only aborts, fatal signals and overflow panics count there.
     pub fn on(&self, prop: &str) -> bool {
-        self.prop == prop
+        self.prop == prop || self.prop == "C20"
     }
     pub fn any(&self, props: &[&str]) -> bool {
-        props.contains(&self.prop)
+        props.contains(&self.prop) || self.prop == "C20"
     }
 }
